@@ -322,7 +322,9 @@ def build(rng, case):
             objs[snum] = ("stm", d, data, b"\n", b"\n")
             offsets[snum] = ("n", emit(snum), 0)
             for i, on in enumerate(g):
-                offsets[on] = ("c", snum, i)
+                offsets[on] = ("c", snum, i + case.get("idx_add", 0))     # qpdf never consults the index
+            if case.get("idx_add"):
+                b.valid = False
             stm_nums.append(snum)
             prev_stm = snum
     if case.get("offset0"):
@@ -369,9 +371,7 @@ def build(rng, case):
         entries[snum] = ("n", xoff, 0)
         nums = sorted(entries)
         vals = [((0, e[1], e[2]) if e[0] == "f" else (1, e[1], e[2]) if e[0] == "n" else (2, e[1], e[2])) for e in (entries[n] for n in nums)]
-        w1 = max(1, max((v[1].bit_length() + 7) // 8 for v in vals)) + rng.choice([0, 0, 1])
-        w2 = max(1, max((v[2].bit_length() + 7) // 8 for v in vals)) + rng.choice([0, 1])
-        w0 = 1
+        w0, w1, w2 = choose_w(rng, vals)
         runs, cur = [], [nums[0]]
         for n in nums[1:]:
             if n == cur[-1] + 1:
@@ -382,7 +382,7 @@ def build(rng, case):
         index = []
         for r in runs:
             index += [r[0], len(r)]
-        data = b"".join(t.to_bytes(w0, "big") + a.to_bytes(w1, "big") + c.to_bytes(w2, "big") for t, a, c in vals)
+        data = b"".join((t.to_bytes(w0, "big") if w0 else b"") + a.to_bytes(w1, "big") + (c.to_bytes(w2, "big") if w2 else b"") for t, a, c in vals)
         d = {b"Type": Name(b"XRef"), b"Size": size, b"W": [w0, w1, w2], b"Root": Ref(1)}
         if index != [0, size] or rng.random() < 0.3:
             d[b"Index"] = index
@@ -431,6 +431,200 @@ def build(rng, case):
     return data, truth, b.valid
 
 
+def choose_w(rng, vals):
+    """/W: every width from the minimum the values need (0 where the field is constant: type 1 for the first, 0 for the others)
+    up to 4 bytes"""
+    m0 = 0 if all(v[0] == 1 for v in vals) else 1
+    m1 = max((v[1].bit_length() + 7) // 8 for v in vals)
+    m2 = max((v[2].bit_length() + 7) // 8 for v in vals)
+    w0 = rng.choice(list(range(m0, 5)))
+    w1 = rng.choice(list(range(min(m1, 4), 5)))
+    w2 = rng.choice(list(range(min(m2, 4), 5)))
+    if w0 + w1 + w2 == 0:
+        w1 = 1
+    return w0, max(w1, m1), max(w2, m2)
+
+
+def emit_table_section(out, rng, entries, size, prev, root=None):
+    xoff = len(out)
+    out.extend(b"xref" + rng.choice([b"\n", b"\r\n", b"\r", b" \n"]))
+    nums = sorted(entries)
+    runs, cur = [], [nums[0]]
+    for n in nums[1:]:
+        if n == cur[-1] + 1 and rng.random() > 0.2:
+            cur.append(n)
+        else:
+            runs.append(cur); cur = [n]
+    runs.append(cur)
+    for run in runs:
+        out.extend(b"%d %d" % (run[0], len(run)) + rng.choice([b"\n", b"\r\n", b" \n"]))
+        for n in run:
+            e = entries[n]
+            out.extend(b"%010d %05d %s" % (e[1], e[2], b"f" if e[0] == "f" else b"n") + rng.choice([b" \n", b"\r\n", b" \r"]))
+    tr = {b"Size": size, b"Root": Ref(1)}
+    if prev is not None:
+        tr[b"Prev"] = prev
+    out.extend(b"trailer" + rng.choice([b"\n", b" ", b"\r\n"]) + ser(tr, rng) + b"\nstartxref\n%d\n%%%%EOF\n" % xoff)
+    return xoff, size
+
+
+def emit_stream_section(out, rng, entries, size, prev, w=None, flate=None):
+    """a cross-reference stream section; it takes the next object number. returns (offset, new size, its number)"""
+    snum = size
+    size += 1
+    xoff = len(out)
+    entries = dict(entries)
+    entries[snum] = ("n", xoff, 0)
+    nums = sorted(entries)
+    vals = [((0, e[1], e[2]) if e[0] == "f" else (1, e[1], e[2]) if e[0] == "n" else (2, e[1], e[2])) for e in (entries[n] for n in nums)]
+    w0, w1, w2 = w if w else choose_w(rng, vals)
+    runs, cur = [], [nums[0]]
+    for n in nums[1:]:
+        if n == cur[-1] + 1:
+            cur.append(n)
+        else:
+            runs.append(cur); cur = [n]
+    runs.append(cur)
+    index = []
+    for r in runs:
+        index += [r[0], len(r)]
+    data = b"".join((t.to_bytes(w0, "big") if w0 else b"") + a.to_bytes(w1, "big") + (c.to_bytes(w2, "big") if w2 else b"") for t, a, c in vals)
+    d = {b"Type": Name(b"XRef"), b"Size": size, b"W": [w0, w1, w2], b"Root": Ref(1)}
+    if index != [0, size] or rng.random() < 0.3:
+        d[b"Index"] = index
+    if prev is not None:
+        d[b"Prev"] = prev
+    if flate if flate is not None else rng.random() < 0.4:
+        data = zlib.compress(data)
+        d[b"Filter"] = Name(b"FlateDecode")
+    d[b"Length"] = len(data)
+    out.extend(b"%d 0 obj\n" % snum + ser(d, rng) + b"\nstream\n" + data + b"\nendstream\nendobj\n")
+    out.extend(b"startxref\n%d\n%%%%EOF\n" % xoff)
+    return xoff, size, snum
+
+
+def emit_plain(out, rng, num, gen, v):
+    off = len(out)
+    w = lambda: rng.choice([b" ", b" ", b"\n", b"\r\n", b"\t"])
+    s = ser(v, rng)
+    out.extend(b"%d" % num + w() + b"%d" % gen + w() + b"obj" + w() + s + w() + b"endobj" + rng.choice([b"\n", b"\r\n", b" \n"]))
+    return off
+
+
+def build_history(rng, case):
+    """incremental updates in which object numbers are freed and re-used: case["cycles"] free/re-use cycles of the victims,
+    case["kinds"][i] = "table" | "stream" for section i (mixed chains allowed), case["same"] = free and re-use recorded by
+    one section (the entry goes straight to the next generation) or by two.  Ground truth: only the last generation of a
+    number is defined; a reference to an earlier (or a later, never reached) generation is the null object (7.3.10)."""
+    out = bytearray(b"%PDF-1.5\n%\xe2\xe3\xcf\xd3\n")
+    cycles = case["cycles"]
+    kinds = case["kinds"]
+    victims = case.get("victims", [4])
+    maxg = cycles + 1
+    objs = {1: None, 2: {b"Type": Name(b"Pages"), b"Kids": [Ref(3)], b"Count": 1},
+            3: {b"Type": Name(b"Page"), b"Parent": Ref(2), b"MediaBox": [0, 0, 10, 10]}}
+    nxt = 4
+    for v in victims:
+        objs[v] = b"g0-of-%d" % v
+        nxt = max(nxt, v + 1)
+    holder = nxt
+    nxt += 1
+    objs[holder] = [Ref(v, g) for v in victims for g in range(maxg + 1)]
+    objs[1] = {b"Type": Name(b"Catalog"), b"Pages": Ref(2), b"H": Ref(holder), b"Live": [Ref(v, 0) for v in victims]}
+    gens = {n: 0 for n in objs}
+    alive = {n: True for n in objs}
+    entries = {0: ("f", 0, 65535)}
+    for n in sorted(objs):
+        entries[n] = ("n", emit_plain(out, rng, n, 0, objs[n]), 0)
+    size = nxt
+    xs_nums = []
+    sec = 0
+
+    def close(entries, prev):
+        nonlocal size, sec
+        kind = kinds[sec % len(kinds)]
+        sec += 1
+        if kind == "table":
+            xoff, size = emit_table_section(out, rng, entries, size, prev)
+        else:
+            xoff, size, sn = emit_stream_section(out, rng, entries, size, prev)
+            xs_nums.append(sn)
+        return xoff
+
+    xoff = close(entries, None)
+    for c in range(cycles):
+        for v in victims:
+            pass
+        if case.get("same"):
+            upd = {}
+            for v in victims:
+                gens[v] += 1
+                objs[v] = b"g%d-of-%d" % (gens[v], v)
+                upd[v] = ("n", emit_plain(out, rng, v, gens[v], objs[v]), gens[v])
+        else:
+            upd = {0: ("f", victims[0], 65535)}
+            for i, v in enumerate(victims):
+                gens[v] += 1
+                upd[v] = ("f", victims[i + 1] if i + 1 < len(victims) else 0, gens[v])
+                alive[v] = False
+            if c == cycles - 1 and case.get("end_freed"):
+                cat = dict(objs[1]); cat[b"Live"] = [Ref(v, gens[v]) for v in victims]
+                objs[1] = cat
+                upd[1] = ("n", emit_plain(out, rng, 1, 0, cat), 0)
+                xoff = close(upd, xoff)
+                break
+            xoff = close(upd, xoff)
+            upd = {0: ("f", 0, 65535)} if rng.random() < 0.5 else {}
+            for v in victims:
+                objs[v] = b"g%d-of-%d" % (gens[v], v)
+                alive[v] = True
+                upd[v] = ("n", emit_plain(out, rng, v, gens[v], objs[v]), gens[v])
+        cat = dict(objs[1]); cat[b"Live"] = [Ref(v, gens[v]) for v in victims]
+        objs[1] = cat
+        upd[1] = ("n", emit_plain(out, rng, 1, 0, cat), 0)
+        xoff = close(upd, xoff)
+    live = {(n, gens[n]) for n in objs if alive[n]} | {(n, 0) for n in xs_nums}
+    truth = {(n, gens[n]): truth_text(objs[n], live) for n in objs if alive[n]}
+    dead = {n for n in objs if not alive[n]}
+    return bytes(out), truth, True, dead
+
+
+def build_big_objstm(rng, nmem, w2=None):
+    """one object stream with nmem members (the integers 0 .. nmem-1 under object numbers 5 ..), described by a
+    cross-reference stream whose third field is wide enough for the largest index"""
+    out = bytearray(b"%PDF-1.5\n%\xe2\xe3\xcf\xd3\n")
+    entries = {0: ("f", 0, 65535)}
+    base = {1: {b"Type": Name(b"Catalog"), b"Pages": Ref(2), b"Last": Ref(4 + nmem)},
+            2: {b"Type": Name(b"Pages"), b"Kids": [Ref(3)], b"Count": 1},
+            3: {b"Type": Name(b"Page"), b"Parent": Ref(2), b"MediaBox": [0, 0, 10, 10]}}
+    for n in sorted(base):
+        entries[n] = ("n", emit_plain(out, rng, n, 0, base[n]), 0)
+    bodies, pairs, pos = [], [], 0
+    for i in range(nmem):
+        b = b"%d " % i
+        pairs.append(b"%d %d " % (5 + i, pos))
+        bodies.append(b)
+        pos += len(b)
+    header = b"".join(pairs)
+    data = header + b"".join(bodies)
+    d = {b"Type": Name(b"ObjStm"), b"N": nmem, b"First": len(header)}
+    raw = zlib.compress(data, 1)
+    d[b"Filter"] = Name(b"FlateDecode")
+    d[b"Length"] = len(raw)
+    entries[4] = ("n", len(out), 0)
+    out.extend(b"4 0 obj\n" + ser(d, rng) + b"\nstream\n" + raw + b"\nendstream\nendobj\n")
+    for i in range(nmem):
+        entries[5 + i] = ("c", 4, i)
+    size = 5 + nmem
+    need = max(1, ((nmem - 1).bit_length() + 7) // 8)
+    w = (1, 3, max(need, 2) if w2 is None else w2)
+    emit_stream_section(out, rng, entries, size, None, w=w, flate=True)
+    truth = {(n, 0): truth_text(v, {(k, 0) for k in range(1, size + 1)}) for n, v in base.items()}
+    for i in range(nmem):
+        truth[(5 + i, 0)] = "i%d" % i
+    return bytes(out), truth, True
+
+
 def cases(rng, quick):
     """the aimed case list: every legal EOL x data edge x /Length spelling, header offsets, object-stream shapes,
     then the same with one illegal choice each"""
@@ -474,6 +668,8 @@ def cases(rng, quick):
         out.append({"form": "table", "xref_eol": rng.choice([b" ", b"  ", b"\n\n", b" \r\n", b"\t"])})
     for k in range(4):
         out.append({"form": rng.choice(["table", "stream"]), "toplevel_ref": True, "ntest": 8})
+    for add in (65534, 65535, 65536, 70000, 16777215):
+        out.append({"form": "stream", "idx_add": add, "ntest": 3, "two_objstm": add % 2 == 0})
     # random mixtures
     for k in range(700 if quick else 20000):
         out.append({"form": rng.choice(["table", "stream"]), "junk": rng.choice([0, 0, 1, 40, 1023]), "update": rng.random() < 0.5,
@@ -540,38 +736,77 @@ def compare(impl, model):
     return None
 
 
+def history_cases(rng, quick):
+    out = []
+    for cycles in (1, 2, 3, 4):
+        for kinds in (["table"], ["stream"], ["table", "stream"], ["stream", "table"], None):
+            for mode in ("separate", "same", "end_freed"):
+                for victims in ([4], [4, 5]) if (quick and cycles in (2, 3)) or not quick else ([4],):
+                    k = kinds or [rng.choice(["table", "stream"]) for _ in range(2 * cycles + 2)]
+                    out.append({"history": True, "cycles": cycles, "kinds": k, "same": mode == "same",
+                                "end_freed": mode == "end_freed", "victims": victims})
+    if not quick:
+        out = out * 10
+    return out
+
+
 def run_part(chk):
     rng = chk.rng
     quick = chk.tier == "quick"
     drv = os.path.join(common.DRV, "drv")
     runner = os.path.join(common.EXTRACT, "model_runner")
+    wd = common.workdir("C03read")
     cs = cases(rng, quick)
-    files = []
+    files = []          # dicts: case, data, truth, valid, model (run the extracted model too), dead
     for c in cs:
         data, truth, valid = build(rng, c)
-        files.append((c, data, truth, valid))
+        files.append({"case": c, "data": data, "truth": truth, "valid": valid, "model": True, "dead": set()})
+    for c in history_cases(rng, quick):
+        data, truth, valid, dead = build_history(rng, c)
+        # a generation that goes up without a free entry ever being recorded is not what 7.5.4 describes: correspondence only
+        files.append({"case": c, "data": data, "truth": truth, "valid": valid and not c["same"], "model": True, "dead": dead})
+    # object streams around the 8- and 16-bit boundaries of the member index; the three big ones are read by qpdf and
+    # compared with the ground truth only (the list-based table of the extracted model is quadratic in the number of entries)
+    for nmem in (1, 2, 255, 256, 257):
+        data, truth, valid = build_big_objstm(rng, nmem, w2=rng.choice([2, 3, 4]))
+        files.append({"case": {"objstm_members": nmem}, "data": data, "truth": truth, "valid": valid, "model": True, "dead": set()})
+    for nmem in (65535, 65536, 65540):
+        need = 2 if nmem <= 65536 else 3
+        data, truth, valid = build_big_objstm(rng, nmem, w2=rng.choice(list(range(need, 5))))
+        files.append({"case": {"objstm_members": nmem}, "data": data, "truth": truth, "valid": valid, "model": False, "dead": set()})
     # generic structural freedom: the files of the file-structure generator as well
     import c03files
     nsf = 120 if quick else 3000
     for i in range(nsf):
         g = c03files.Gen(rng, rng.choice([0.0, 0.3, 0.7, 1.0]))
         data, live, freed, meta = g.build(i)
-        files.append(({"c03files": meta["form"], "junk": meta["junk"], "updates": meta["updates"]}, data, None, True))
-    lines = ["rd_view " + hexs(f[1]) for f in files]
+        files.append({"case": {"c03files": meta["form"], "junk": meta["junk"], "updates": meta["updates"]}, "data": data, "truth": None,
+                      "valid": True, "model": True, "dead": set()})
+    lines = []
+    for idx, f in enumerate(files):
+        if len(f["data"]) > 60000:
+            p = os.path.join(wd, "big%d.pdf" % idx)
+            open(p, "wb").write(f["data"])
+            f["path"] = p
+            lines.append("rd_viewf " + p)
+        else:
+            lines.append("rd_view " + hexs(f["data"]))
     impl = common.run_lines(drv, lines, shards=4)
-    model = common.run_lines(runner, lines, shards=4)
+    mlines = [l for l, f in zip(lines, files) if f["model"]]
+    mres = iter(common.run_lines(runner, mlines, shards=4))
+    model = [next(mres) if f["model"] else None for f in files]
     nontriv, tie, kinds = set(), [], {}
     nvalid = 0
     wclasses = {}
-    wd = common.workdir("C03read")
-    for idx, ((c, data, truth, valid), i, m) in enumerate(zip(files, impl, model)):
+    for idx, (f, i, m) in enumerate(zip(files, impl, model)):
+        c, data, truth, valid = f["case"], f["data"], f["truth"], f["valid"]
         mi = parse_view(i)
         key = "valid" if valid else "damaged"
         for w in mi["wset"] | ({"reconstructed"} if mi.get("recon") == "1" else set()) | ({"fatal"} if mi["status"] == "fatal" else set()):
             wclasses[w] = wclasses.get(w, 0) + 1
         kinds[key] = kinds.get(key, 0) + 1
-        if i.startswith("?") or m.startswith("?"):
-            tie.append({"case": repr(c)[:300], "why": "driver/runner failure", "impl": i[:120], "model": m[:120]})
+        if i.startswith("?") or (m is not None and m.startswith("?")):
+            tie.append({"case": repr(c)[:300], "why": "driver/runner failure", "impl": i[:120], "model": str(m)[:120]})
             continue
         # ---- specification side: a valid file must be read as the document it denotes, with no diagnostic
         if valid and truth is not None:
@@ -584,13 +819,28 @@ def run_part(chk):
                     if mi["objs"].get(k) != t:
                         bad = "object %d %d: expected %s, qpdf reads %s" % (k[0], k[1], t[:160], str(mi["objs"].get(k))[:160])
                         break
+                if bad is None:
+                    nums = {k[0] for k in truth}
+                    for k, v in mi["objs"].items():
+                        if k not in truth and (k[0] in nums or k[0] in f["dead"]) and v != "n":
+                            bad = "object %d %d is not defined by the file (freed or superseded generation), qpdf lists it with value %s" % (k[0], k[1], v[:120])
+                            break
             if bad:
-                p = os.path.join(wd, "bad%d.pdf" % idx)
+                p = f.get("path") or os.path.join(wd, "bad%d.pdf" % idx)
                 open(p, "wb").write(data)
+                sample = dict(list(truth.items())[:40]) if len(truth) > 40 else truth
+                if len(truth) > 40:
+                    m_ = re.match(r"object (\d+) (\d+):", bad)
+                    if m_:
+                        sample[(int(m_.group(1)), int(m_.group(2)))] = truth[(int(m_.group(1)), int(m_.group(2)))]
                 chk.violation({"kind": "property-fails-on-implementation", "file": p, "why": bad, "case": repr(c)[:400],
-                               "replay_lines": ["rd_viewf " + p], "truth": {"%d.%d" % k: t for k, t in truth.items()}},
+                               "replay_lines": ["rd_viewf " + p], "truth": {"%d.%d" % k: t for k, t in sample.items()},
+                               "dead": sorted(f["dead"])},
                               signature="c03read:" + re.sub(r"\d+", "N", bad)[:60])
                 continue
+        if m is None:
+            nontriv.add(data)
+            continue
         d = compare(i, m)
         if d is not None:
             p = os.path.join(wd, "diff%d.pdf" % idx)
@@ -601,9 +851,10 @@ def run_part(chk):
     if tie:
         chk.violation({"kind": "correspondence-broken", "correspondence": "corr:C03:object-reader", "differing_cases": len(tie),
                        "first_cases": tie[:3]}, no_input=True)
-    chk.count("object-reader", len(files), nontriv, samples=[{"case": repr(files[0][0])[:200], "model": model[0][:160]}])
+    chk.count("object-reader", len(files), nontriv, samples=[{"case": repr(files[0]["case"])[:200], "model": model[0][:160]}])
     chk.cov["parts"]["object-reader"].update({"by_class": kinds, "qpdf_warning_classes_seen": wclasses, "valid_with_truth": nvalid,
-                                              "model_outcomes": {k: sum(1 for m in model if m.startswith(k)) for k in ("doc", "outside", "fatal")}})
+                                              "model_outcomes": {k: sum(1 for m in model if m and m.startswith(k)) for k in ("doc", "outside", "fatal")},
+                                              "read_by_qpdf_only": sum(1 for f in files if not f["model"])})
 
 
 def replay_line(l, rep):
@@ -622,7 +873,12 @@ def replay_line(l, rep):
             o, g = k.split(".")
             if mi["objs"].get((int(o), int(g))) != t:
                 print(" object %s: expected %s, qpdf reads %s" % (k, t[:200], str(mi["objs"].get((int(o), int(g))))[:200])); bad = 1
-    d = compare(a, m)
+        tk = {tuple(int(x) for x in k.split(".")) for k in rep["truth"]}
+        nums = {k[0] for k in tk} | set(rep.get("dead", []))
+        for k, v in mi["objs"].items():
+            if k not in tk and k[0] in nums and v != "n" and len(rep["truth"]) < 41:
+                print(" object %d %d is not defined by the file, qpdf lists it: %s" % (k[0], k[1], v[:120])); bad = 1
+    d = compare(a, m) if not m.startswith("?") else None
     if d is not None:
         print(" model/implementation:", d); bad = 1
     return bad
